@@ -65,6 +65,47 @@ CLAIMS = {
                     "abstract spec and RegAccQBuilder/RegAccessQueue driven in lock-step + random longer histories.",
             "note": PURE_NOTE, "technique": "Coq refinement proof + exhaustive state-space correspondence"},
 }
+TEXT_NOTE = ("Trusted: Coq kernel; extraction (ExtrOcamlBasic only); the hand-written models coq/model/Program.v, Isa.v, "
+             "Loader.v, Cli.v are tied to the Python source only by the differential correspondence run; harness glue; "
+             "fastcore shim; 7-bit text; Python's re/str.strip/csv/PyYAML/typer are modelled or exercised, not verified.")
+CLAIMS.update({
+    "C13": {"text": "Coq theorems C13_loader (descriptions differing only in the letter case of connection ends, later "
+                    "capability occurrences and memory-access entries load to the same processor or the same error, the "
+                    "culprit of an UNDEFINED name being equal up to case since it has no first spelling), C13_loader_exact, "
+                    "C13_isa(_exact), C13_compile, C13_program (re-casing later register occurrences leaves the parsed program "
+                    "unchanged), C13_first_spelling. Correspondence: metamorphic pairs (input, re-casing of all its non-defining "
+                    "occurrences) through the whole library pipeline: implementation results on the pair must be equal, and "
+                    "each must equal the model's.",
+            "note": TEXT_NOTE, "technique": "Coq proof (congruence of the loader/ISA/parser models w.r.t. case) + metamorphic correspondence"},
+    "C14": {"text": "Coq theorems C14_roundtrip (for every list of rendered lines with arbitrary whitespace layout, blank lines "
+                    "and tokens free of blanks/commas, read_program returns exactly the written instructions with 1-based "
+                    "physical line numbers, destination first, sources deduplicated and sorted, first spellings), "
+                    "C14_strip_invariant, C14_no_operands, C14_empty_operand (error carries line, mnemonic, position of the "
+                    "first empty operand). Correspondence: generated programs with all ASCII whitespace characters and "
+                    "single-fault corruptions; independent oracle from the generated instruction list.",
+            "note": TEXT_NOTE, "technique": "Coq proof (string lemmas for strip/split) + differential correspondence"},
+    "C15": {"text": "Coq theorems C15_isa_ok, C15_isa_reject, C15_isa_first_defect, C15_abilities, C15_compile_ok, "
+                    "C15_compile_fail over the models of load_isa / get_abilities / compile_program. Correspondence: ISA tables "
+                    "of 0..8 entries with arbitrary casing, collisions and unknown capabilities x capability sets x programs.",
+            "note": TEXT_NOTE, "technique": "Coq proof + differential correspondence"},
+    "C16": {"text": "Coq theorems C16_cells (for every completed run of a wf processor the rows of the table have, in column t "
+                    "of row k, '<label>:<unit>' exactly when the diagram places instruction k there, else an empty cell; uses "
+                    "the proved C03), C16_print_lines and C16_fields_roundtrip (the printed text splits back into header and "
+                    "rows). Correspondence: the command-line driver is run as a sub-process on generated YAML+assembly pairs; "
+                    "stdout is compared byte-wise with the model's text and cell-wise with the library's diagram, and the "
+                    "C01-C08 checkers are evaluated on the table parsed back from stdout. YAML reading and argument parsing "
+                    "are exercised only by this correspondence.",
+            "note": TEXT_NOTE, "technique": "Coq proof of the rendering + sub-process correspondence"},
+    "C20": {"text": "PARTIAL. Coq theorems C20_set_order_irrelevant (whatever order the loader iterates its set of new "
+                    "terminals in, it returns the same processor or the same class of error naming the same set of dead input "
+                    "ports) and C20_unit_lists_order_irrelevant; determinism of the model is definitional. Purity of the Python "
+                    "objects (no hidden state, no argument mutation) is NOT a theorem: it is established by differential runs "
+                    "(each case twice per interpreter with unrelated work in between, fresh interpreters with PYTHONHASHSEED "
+                    "0/1/2/random, arguments compared with pre-call copies, all compared with the model's single value).",
+            "note": TEXT_NOTE + " No executable Gallina model can express 'this Python call wrote to a module global'; that part "
+                    "rests on the differential runs alone.",
+            "technique": "Coq proof of set-iteration-order irrelevance (partial) + differential purity runs across hash seeds"},
+})
 NOT_CLAIMED = {}
 NOTES = ("Two genuine defects of the pinned tree were repaired by unguarded fix: commits in /repo "
          "(56046f6 reg_access.can_access: write after own read; 8dc64c1 chk_terminals: iterate dead-end removal); "
